@@ -10,9 +10,10 @@ BELT = ["src/crypto/belt/belt_%s.c" % m for m in ("ecb", "cbc", "cfb", "ctr", "m
 UF = {"crypto/belt/belt_block.c": ["beltBlockEncr", "beltBlockEncr2", "beltBlockEncr3", "beltBlockDecr", "beltBlockDecr2", "beltBlockDecr3"],
       "crypto/belt/belt_lcl.c": ["beltPolyMul"]}
 GROUPS = []
-def chunk(bundle, lx, ly, fns, tier="quick", **kw):
-    return G("belt.%s.x%d.y%d" % (bundle, lx, ly), "harness/C10/belt_chunks.c", "h_" + bundle, BELT, stubs=["stubs/belt_uf.c"], strip=UF,
-             defs=["LX=%d" % lx, "LY=%d" % ly], level="B", bound="fragment lengths |x| = %d, |y| = %d octets" % (lx, ly),
+def chunk(bundle, lx, ly, fns, tier="quick", lz=0, **kw):
+    return G("belt.%s.x%d.y%d" % (bundle, lx, ly) + (".z%d" % lz if lz else ""), "harness/C10/belt_chunks.c", "h_" + bundle, BELT,
+             stubs=["stubs/belt_uf.c"], strip=UF,
+             defs=["LX=%d" % lx, "LY=%d" % ly, "LZ=%d" % lz], level="B", bound="fragment lengths |x| = %d, |y| = %d, |z| = %d octets" % (lx, ly, lz),
              unwind=lx + ly + 40, spec_unwind=lx + ly + 40, search=5000, split=True, timeout=900, tier=tier, fn=fns, **kw)
 QX = (0, 1, 15, 16, 17, 33)
 QY = (0, 1, 16, 17)
@@ -20,7 +21,10 @@ for b, fns in (("cfb_e", ["beltCFBStart", "beltCFBStepE"]), ("cfb_d", ["beltCFBS
                ("mac", ["beltMACStart", "beltMACStepA", "beltMACStepG"])):
     for lx in QX:
         for ly in QY:
-            GROUPS.append(chunk(b, lx, ly, fns, tier="quick" if (lx in (1, 16, 17) and ly in (0, 17)) else "thorough"))
+            GROUPS.append(chunk(b, lx, ly, fns, tier="quick" if (lx in (1, 16, 17) and ly in (1, 17)) else "thorough"))
+    # three fragments: a short second fragment served from the buffered gamma / partial block, then a block boundary
+    for lx, ly, lz in ((5, 3, 20), (17, 1, 16), (1, 15, 17), (10, 2, 4)):
+        GROUPS.append(chunk(b, lx, ly, fns, lz=lz))
 def chunk_native(bundle, lx, ly, fns):
     return G("belt.%s.x%d.y%d.search" % (bundle, lx, ly), "harness/C10/belt_chunks.c", "h_" + bundle, BELT, defs=["LX=%d" % lx, "LY=%d" % ly],
              level="N", backend="native", search=20000, fn=fns,
